@@ -43,6 +43,69 @@ fn ptr_str(t: &Term) -> String {
     }
 }
 
+// ---- C18: two representations of one context ----------------------------------------------------
+// An entry (T, offset) of the typing context at position pos says: T lives in the context made of
+// the first pos + offset entries. Lifting T by d and storing (T↑d, offset + d) describes the same
+// variable (d at most the number of entries after those). `rebase` lifts every entry as far as
+// it goes, so that every stored type/definition lives in the whole context. Checking an open
+// subterm of a program under the context that the checker itself builds on the way to it, and
+// under the rebased context, must give the same verdict and convertible types.
+use crate::ser_store::{DCtx, TCtx};
+
+fn rebase<'a>(tctx: &TCtx<'a>, dctx: &DCtx<'a>) -> (TCtx<'a>, DCtx<'a>) {
+    let len = tctx.len();
+    let t2 = tctx.iter().enumerate().map(|(pos, (t, off))| { let d = len - pos - off; (Rc::new(crate::de_bruijn::unsigned_shift(t, 0, d)), off + d) }).collect();
+    let d2 = dctx.iter().enumerate().map(|(pos, e)| e.as_ref().map(|(t, off)| { let d = len - pos - off; (Rc::new(crate::de_bruijn::unsigned_shift(t, 0, d)), off + d) })).collect();
+    (t2, d2)
+}
+
+fn c18_context_oracle<'a>(out: &mut Out, src: &'a str, term: &Term<'a>, rng: &mut Rng, origin: &str) {
+    use Variant::*;
+    let (mut tctx, mut dctx): (TCtx<'a>, DCtx<'a>) = (vec![], vec![]);
+    let mut cur: Term<'a> = term.clone();
+    let mut done = 0;
+    for _depth in 0..60 {
+        // some entry must have room to be lifted, else the two contexts are the same
+        let movable = tctx.iter().enumerate().any(|(pos, (_, off))| tctx.len() - pos - off > 0);
+        if movable && done < 3 && rng.chance(1, 2) {
+            done += 1;
+            let (mut t2, mut d2) = rebase(&tctx, &dctx);
+            let (mut t1, mut d1) = (tctx.clone(), dctx.clone());
+            let r1 = guarded(|| crate::type_checker::type_check(None, src, &cur, &mut t1, &mut d1));
+            let r2 = guarded(|| crate::type_checker::type_check(None, src, &cur, &mut t2, &mut d2));
+            out.stat("c18:open-subterm-checked-under-both-contexts");
+            let show = |r: &Result<Result<(Term, Term), Vec<crate::error::Error>>, String>| match r { Ok(Ok((_, t))) => format!("accepted : {t}"), Ok(Err(es)) => format!("rejected ({} diagnostics)", es.len()), Err(m) => format!("panic {m}") };
+            let agree = match (&r1, &r2) {
+                (Ok(Ok((_, a))), Ok(Ok((_, b)))) => guarded(|| unify(a, b, &mut d2)) == Ok(true),
+                (Ok(Err(_)), Ok(Err(_))) => true,
+                (Err(_), Err(_)) => true,
+                _ => false,
+            };
+            if !agree {
+                out.hit("C18", "verdict-depends-on-representation-of-context", src, &format!("{origin} open subterm `{cur}` at context depth {}: under the context as the checker builds it: {}; with every entry lifted to the whole context: {}", tctx.len(), show(&r1), show(&r2)));
+                return;
+            }
+        }
+        let next = match &cur.variant {
+            Lambda(_, _, dom, body) | Pi(_, _, dom, body) => {
+                if rng.chance(1, 6) { (**dom).clone() } else { tctx.push((dom.clone(), 0)); dctx.push(None); (**body).clone() }
+            }
+            Let(defs, body) => {
+                let n = defs.len();
+                for (i, (_, a, d)) in defs.iter().enumerate() { tctx.push((a.clone(), n - i)); dctx.push(Some((d.clone(), n - i))); }
+                let k = rng.below(n + 1);
+                if k == n { (**body).clone() } else if rng.chance(1, 6) { (*defs[k].1).clone() } else { (*defs[k].2).clone() }
+            }
+            Application(a, b) | Sum(a, b) | Difference(a, b) | Product(a, b) | Quotient(a, b) | LessThan(a, b) | LessThanOrEqualTo(a, b)
+            | EqualTo(a, b) | GreaterThan(a, b) | GreaterThanOrEqualTo(a, b) => if rng.chance(1, 2) { (**a).clone() } else { (**b).clone() },
+            If(c, a, b) => match rng.below(3) { 0 => (**c).clone(), 1 => (**a).clone(), _ => (**b).clone() },
+            Negation(a) => (**a).clone(),
+            _ => break,
+        };
+        cur = next;
+    }
+}
+
 #[derive(Clone, Debug, PartialEq)]
 pub enum Obs { Rejected(&'static str), Value(String), Stuck(String), Cap, Panic }
 
@@ -85,7 +148,7 @@ fn value_kind(v: &Term) -> &'static str {
 pub fn check_program(out: &mut Out, names: &mut Ser, p: &Prog, src: &str, defect_shape: bool, rng: &mut Rng, idx: usize) {
     let origin = format!("gprog#{idx}");
     if !out.begin(src) { out.stat("skipped-known-abort"); return; }
-    for f in &p.features { out.stat(&format!("feature:{f}")); }
+    if p.features.first() == Some(&"universe-alias") { out.stat("feature:universe-alias"); } else { for f in &p.features { out.stat(&format!("feature:{f}")); } }
     // --- reference scoping -----------------------------------------------------------------------
     let want_db = db_e(&p.e, &mut vec![]);
     let mut ttoks = vec![];
@@ -138,6 +201,8 @@ pub fn check_program(out: &mut Out, names: &mut Ser, p: &Prog, src: &str, defect
         let same = match front(&alt.text, &mut toks3) { Stage::Parsed(t3) => canon_term(&t3) == canon_term(&term) || !tree_ok, _ => false };
         if !same { out.hit("C10", "layout-changes-parse", &alt.text, &format!("{origin} original={src}")); } else { out.stat("layout:same-parse"); }
     }
+    // --- C18: open subterms under two representations of their context --------------------------------
+    if p.fully_annotated && tree_ok { c18_context_oracle(out, src, &term, rng, &origin); }
     // --- type checking: correspondence op `infer` ----------------------------------------------------
     let hc0 = holecopy_events();
     let hd0 = holedepth_events();
@@ -146,12 +211,35 @@ pub fn check_program(out: &mut Out, names: &mut Ser, p: &Prog, src: &str, defect
     out.case(&c.op, &c.answer);
     if let Some(m) = &c.panic { out.hit("C14", "type_check-panic", src, &format!("{m} holedepth-events={}", holedepth_events() - hd0)); return; }
     if !c.ctx_restored { out.hit("C18", "contexts-not-restored", src, &c.answer); }
+    // programs made around dependent types: conversion is what decides about them
+    let conversion_matters = p.features.iter().any(|f| matches!(*f, "dep-indexed-predicate" | "dep-type-family" | "dep-type-level-if-on-bound-variable" | "dep-equality-by-predicate" | "dep-alias-group-under-binder"));
     let Some((elab, ty)) = c.accepted else {
         out.stat("stage:rejected");
-        if p.fully_annotated && tree_ok { out.hit("C05", "fully-annotated-well-typed-program-rejected", src, &format!("{origin} expected type {}", p.ty_src)); }
+        if let Some(why) = p.expect_reject {
+            // a deliberate near miss: rejection is what the typing rules prescribe
+            out.stat("near-miss:rejected(as expected)");
+            out.stat(&format!("near-miss:{why}"));
+            return;
+        }
+        if p.fully_annotated && tree_ok {
+            out.hit("C05", "fully-annotated-well-typed-program-rejected", src, &format!("{origin} expected type {}", p.ty_src));
+            if conversion_matters { out.hit("C06", "definitionally-equal-types-judged-different", src, &format!("{origin} well typed by construction (the types to be identified are convertible), rejected; expected type {}", p.ty_src)); }
+        }
         return;
     };
     out.stat("stage:accepted");
+    if let Some(why) = p.expect_reject {
+        // The near miss requires two types to be equal that are not definitionally equal. Where a
+        // hole was copied by substitution gram's known defect KF-holecopy decides, not the near miss.
+        let hc = holecopy_events() - hc0;
+        if !tree_ok || hc > 0 {
+            out.stat("near-miss:accepted(excused: tree differs or hole copied)");
+        } else {
+            out.stat("near-miss:ACCEPTED");
+            out.hit("C03", "ill-typed-program-accepted", src, &format!("{origin} deliberate near miss ({why}): ill typed by construction, accepted with type {ty}"));
+            out.hit("C06", "types-that-are-not-definitionally-equal-judged-equal", src, &format!("{origin} deliberate near miss ({why}): accepted with type {ty}"));
+        }
+    }
     // --- C05: elaboration only fills holes; reported type equals the expected one ---------------------
     if ptr_str(&elab) != ptr_str(&term) {
         out.hit("C05", "elaboration-rewrote-the-term", src, &format!("{origin} input {} elaborated {}", ptr_str(&term), ptr_str(&elab)));
@@ -175,7 +263,7 @@ pub fn check_program(out: &mut Out, names: &mut Ser, p: &Prog, src: &str, defect
     let ev = run_eval(&elab, EVAL_CAP);
     let answer = match &ev {
         Err(_) => "panic".to_owned(),
-        Ok((Final::Cap, _, _)) => "fuel".to_owned(),
+        Ok((Final::Cap, _, n)) => if *n == usize::MAX { "timeout".to_owned() } else { "fuel".to_owned() },
         Ok((Final::Value, v, _)) => format!("value {}", es.term(v, HoleMode::ZonkErase)),
         Ok((Final::Stuck(r), v, _)) => format!("stuck {} {}", r, es.term(v, HoleMode::ZonkErase)),
     };
@@ -235,12 +323,19 @@ pub fn check_program(out: &mut Out, names: &mut Ser, p: &Prog, src: &str, defect
             }
             // --- C06: the checker's normalizer agrees with the evaluator; conversion contains reduction -
             if matches!(val.variant, Variant::IntegerLiteral(_) | Variant::True | Variant::False) {
+                let t_whnf = std::time::Instant::now();
                 match guarded(|| normalize_weak_head(&elab, &mut vec![])) {
                     Ok(w) => if !syntactically_equal(&w, &val) {
                         out.hit("C06", "normalizer-disagrees-with-evaluator", src, &format!("{origin} evaluate gives {val}, normalize_weak_head gives {w}"));
                     } else { out.stat("c06:whnf=eval"); },
                     Err(m) => out.hit("C14", "normalize-panic", src, &m),
                 }
+                // the normalizer works in normal order: a function with two recursive calls can cost
+                // exponentially more than evaluation; the ten further normalisations below are
+                // then left out
+                let cheap = t_whnf.elapsed().as_millis() < 40;
+                if !cheap { out.stat("c06:conversion-checks-skipped(normalisation-expensive)"); }
+                if cheap {
                 let refl = guarded(|| unify(&elab, &elab, &mut vec![]));
                 if refl != Ok(true) { out.hit("C06", "term-not-equal-to-itself", src, &origin); }
                 let red = guarded(|| unify(&elab, &val, &mut vec![]));
@@ -256,15 +351,24 @@ pub fn check_program(out: &mut Out, names: &mut Ser, p: &Prog, src: &str, defect
                         break;
                     }
                 }
+                }
             }
         }
     }
     // --- C19: meaning-preserving rewrites ------------------------------------------------------------
     if tree_ok {
         let base = observe(src);
-        let mut rws = prog::rewrites(&p.e, rng);
+        let keep_types = p.features.contains(&"dep-recursive-type-family");
+        let mut rws = prog::rewrites_opt(&p.e, rng, keep_types);
         // a bounded number per program, rotating over the kinds
         while rws.len() > 3 { let k = rng.below(rws.len()); rws.remove(k); }
+        // rewrites inside definition groups, wherever they are nested; more of them for the
+        // programs whose groups have types that mention their definitions
+        let dependent = p.features.contains(&"dependent-mode");
+        rws.extend(prog::rewrites_groups(&p.e, rng, if dependent { 3 } else { 1 }, keep_types));
+        // a call added to a program with forward references can run into gram's known finding
+        // KF-order (a function whose body has a group with a forward reference gets stuck when called)
+        if p.features.contains(&"forward-ref") { rws.retain(|r| r.0 != "unused-call-in-group"); }
         for (kind, e2) in rws {
             let r2 = prog::render_ex(&e2, &Style { newlines: false, redundant_parens: 0, comments: false }, rng);
             let o2 = observe(&r2.text);
@@ -274,6 +378,69 @@ pub fn check_program(out: &mut Out, names: &mut Ser, p: &Prog, src: &str, defect
             }
         }
     }
+    // --- C15 (and C03): a type fault at a position whose expected type is known ------------------------
+    // (not with a recursive type family around: an ill-typed variant can take away its base case,
+    // and the checker, which goes on after the first diagnostic, then normalises for ever)
+    if tree_ok && p.expect_reject.is_none() && !p.features.contains(&"dep-recursive-type-family") {
+        if let Some(tp) = prog::perturb_typed(&p.e, rng) {
+            let style = Style { newlines: rng.chance(1, 2), redundant_parens: [0, 0, 10][rng.below(3)], comments: rng.chance(1, 4) };
+            let (r, spans) = prog::render_marked(&tp.e, &style, rng, Some(&tp.path));
+            if let Some(spans) = spans { type_fault_oracle(out, &tp, &r.text, spans, &origin); }
+        }
+    }
+}
+
+// The program `text` has ONE type fault: the subexpression at `spans` has type `tp.got` where
+// `int`/`bool` is required. The checker must reject it (C03), and one of its diagnostics must have
+// exactly that subexpression as its range (C15). gram's convention, found by experiment on the
+// pinned tree and the same at all five kinds of position (argument, operand, operand of a negation,
+// condition, right-hand side of an annotated definition):
+//   - anything but a chain (literal, name, negation, comparison, conditional, function, function
+//     type, group of definitions): the subexpression WITH all parentheses directly around it;
+//   - a chain (application, product/quotient, sum/difference; these are rebuilt by the parser's
+//     re-association passes) without parentheses around it: from its first to its last operand;
+//   - a chain in parentheses: the same, and the parentheses are included or not depending on how
+//     re-association went (`(g (1))`, `(8 + (3 + 7))` with, `(1 + 2)`, `(g 1 (2))` without): both
+//     are accepted here.
+// A chain that BEGINS with a parenthesised operand and does not end with one, `(1 * 2) - 3`, is
+// reported from inside the first parenthesis, `1 * 2) - 3`: that is a defect of gram (NOTES.md,
+// finding F2); those hits carry `shape=chain-beginning-with-a-parenthesised-operand`.
+fn type_fault_oracle(out: &mut Out, tp: &prog::TypedPerturb, text: &str, spans: prog::Spans, origin: &str) {
+    if !out.begin(text) { out.stat("skipped-known-abort"); return; }
+    let mut tokens = vec![];
+    let term = match front(text, &mut tokens) {
+        Stage::Parsed(t) => t,
+        // replacing a value by a non-value (or the reverse) can break the definition-order rule
+        _ => { out.stat("type-fault:not-applicable(front-end-rejects)"); return; }
+    };
+    if canon_term(&term) != canon_e(&tp.e) { out.stat("type-fault:not-applicable(parse-tree-differs)"); return; }
+    crate::error::verif_hooks::LISTING_RANGES.with(|v| v.borrow_mut().clear());
+    let r = guarded(|| crate::type_checker::type_check(None, text, &term, &mut vec![], &mut vec![]));
+    let ranges: Vec<(usize, usize)> = crate::error::verif_hooks::LISTING_RANGES.with(|v| v.borrow().clone());
+    let what = format!("{} of type {} where {} is required, written as a {}", tp.position, tp.got, if tp.expected_int { "int" } else { "bool" }, tp.form);
+    match r {
+        Err(m) => { out.hit("C14", "type_check-panic", text, &m); return; }
+        Ok(Ok((_, ty))) => {
+            out.hit("C03", "type-fault-at-position-of-known-type-accepted", text, &format!("{origin} {what}: `{}`; accepted with type {ty}", &text[spans.full.0..spans.full.1]));
+            return;
+        }
+        Ok(Err(_)) => {}
+    }
+    out.stat("type-fault:range-oracle-applied");
+    out.stat(&format!("type-fault:position:{}", tp.position));
+    out.stat(&format!("type-fault:form:{}", tp.form));
+    let node = prog::at(&tp.e, &tp.path);
+    let chain = prog::reported_span_is_core(node);
+    let want = if chain { spans.core } else { spans.full };
+    if ranges.contains(&want) || (chain && ranges.contains(&spans.full)) {
+        out.stat("type-fault:range-is-the-offending-subexpression");
+    } else {
+        let shown: Vec<String> = ranges.iter().map(|(a, b)| format!("{a}..{b} `{}`", text.get(*a..*b).unwrap_or("?"))).collect();
+        out.hit("C15", "type-error-range-is-not-the-offending-subexpression", text, &format!(
+            "{origin} {what}; shape={}; expected range {}..{} `{}`; reported ranges: {}",
+            if chain && text[want.0..want.1].starts_with('(') { "chain-beginning-with-a-parenthesised-operand" } else { "plain" },
+            want.0, want.1, &text[want.0..want.1], shown.join(" | ")));
+    }
 }
 
 // "naming a subexpression with a definition", applied to the universe itself: `u0 = type; …` with
@@ -281,6 +448,16 @@ pub fn check_program(out: &mut Out, names: &mut Ser, p: &Prog, src: &str, defect
 fn alias_type(e: &E, rng: &mut Rng) -> Option<E> {
     fn go(e: &mut E, rng: &mut Rng, n: &mut usize) {
         if matches!(e, E::TyType) && rng.chance(2, 3) { *e = E::Var("u0_".to_owned()); *n += 1; return; }
+        // a definition `u = type` stays a value (a variable is not one, and whether a definition is
+        // a value decides if earlier definitions may mention it)
+        if let E::Let(defs, body) = e {
+            for (_, a, d) in defs.iter_mut() {
+                if let Some(a) = a { go(a, rng, n); }
+                if !matches!(prog::strip(d), E::TyType) { go(d, rng, n); }
+            }
+            go(body, rng, n);
+            return;
+        }
         for k in prog::kids_mut(e) { go(k, rng, n); }
     }
     let mut c = e.clone();
@@ -381,7 +558,7 @@ fn run_order_patterns(out: &mut Out, names: &mut Ser, tier: &str, rng: &mut Rng)
                 let src = prog::render_plain(&e);
                 idx += 1;
                 if ok {
-                    let p = Prog { e, ty_src: "int".to_owned(), expected, features: vec!["order-pattern"], fully_annotated: true };
+                    let p = Prog { e, ty_src: "int".to_owned(), expected, features: vec!["order-pattern"], fully_annotated: true, expect_reject: None };
                     check_program(out, names, &p, &src, false, rng, 1_000_000 + idx);
                 } else {
                     out.stat("order:rule-rejects");
@@ -412,7 +589,11 @@ pub fn run(out: &mut Out, tier: &str, seed: u64) {
         // the same program with the universe reached through a definition (1 in 3)
         if i % 3 == 0 {
             if let Some(e2) = alias_type(&p.e, &mut sub) {
-                let p2 = Prog { e: e2, ty_src: p.ty_src.clone(), expected: p.expected.clone(), features: vec!["universe-alias"], fully_annotated: p.fully_annotated };
+                // the variant keeps the features of the program (some oracles depend on them); the
+                // first one marks it as a variant, whose features are not counted again
+                let mut features = vec!["universe-alias"];
+                features.extend(p.features.iter().copied());
+                let p2 = Prog { e: e2, ty_src: p.ty_src.clone(), expected: p.expected.clone(), features, fully_annotated: p.fully_annotated, expect_reject: p.expect_reject };
                 let r2 = prog::render_ex(&p2.e, &style, &mut sub);
                 check_program(out, &mut names, &p2, &r2.text, false, &mut sub, i);
             }
